@@ -36,4 +36,7 @@ def run(ctx):
         "ZB-ens": Rule("ZB-ens", "by-reference cursors never move backwards / stay <= bound (proven on every exit)", floor=6),
     }
     run_zone(ctx, m, CONTRACTS, KEYS, rules)
-    return list(rules.values())
+    from rules.borrow import rule_borrow
+    out = list(rules.values())
+    out.append(rule_borrow(ctx, m, files=["JSON.hpp", "JSONUtils.hpp"]))
+    return out
